@@ -231,7 +231,7 @@ class FnDep:
     def _through_mut(self, pl, root):
         """`*s = v` where s is a `&mut` element handed out by an iterator chain (iter_mut / zip / enumerate / next ...): the storage written
         is the container the chain was started on"""
-        if any(p['k'] == 'deref' for p in pl.get('p', [])) and self.body.local_ty(pl['l']).startswith('&mut ') and root == pl['l']:
+        if any(p['k'] == 'deref' for p in pl.get('p', [])) and self.body.local_ty(pl['l']).startswith('&mut '):
             return [r for r in self.mut_origins(pl['l']) if r != root]
         return []
 
